@@ -232,7 +232,8 @@ PROPS = {
                       "part on the exact timeline), C14_until_exact_elapsed (largest unit hours..seconds: the exact elapsed time, zone "
                       "irrelevant), C14_start_of_day_first (first instant reading midnight) and C14_start_of_day_gap (skipped "
                       "midnight, any gap size: the transition instant, equal to the specification's first instant of the day), "
-                      "C14_hours_in_day; for rounding relative to a zoned date-time C14_until_rounded_reaches_other (end to end: the date "
+                      "C14_hours_in_day, C14_add_until_inverse (a.add(a.until(b, any largest unit)) = b, from C04's inverse law, the "
+                      "day-correction loop's invariant and the exactness of time balancing); for rounding relative to a zoned date-time C14_until_rounded_reaches_other (end to end: the date "
                       "part DifferenceZonedDateTime returns leads, by add, to the start of the local-day bracket, its time part reaches "
                       "the other instant exactly from there, and the rounded result leads to an instant less than two steps - one on "
                       "whole-step days - from the other instant) on top of C14_zoned_time_rounding (NudgeToZonedTime: the time "
@@ -247,7 +248,10 @@ PROPS = {
                       "synthetic zones with instants within a day of transitions; the inverse law a.add(a.until(b, date unit)) = b, "
                       "the first-instant-of-day and real-day-length specifications are compared with the implementation directly "
                       "(spec_ops).",
-        "level_note": "Trusted: as C13. The inverse law is checked, not proved. The zoned calendar-unit nudge and bubbling are "
+        "level_note": "Trusted: as C13. The inverse law add(until) = other is proved (C14_add_until_inverse) for a non-zero "
+                      "date part or a receiver that is the compatible resolution of its own reading, and an intermediate date-time "
+                      "inside the limits; the excluded case (the later copy of a repeated reading with a zero date difference) is the "
+                      "recorded finding, and the law is also compared directly (zdt_law, du_zlaw). The zoned calendar-unit nudge and bubbling are "
                       "modelled and compared (Model/RelativeZoned.lean); what is proved about them is the shared rounding core (C08) "
                       "and the time-unit step (C14_zoned_time_rounding).",
         "why_difference_is_violation":
